@@ -35,6 +35,13 @@ type batchCase struct {
 	DropTableOnNSRE bool `json:"drop_table_on_nsre,omitempty"`
 	// Other is a second batch sent concurrently on the same client.
 	Other []opSpec `json:"other,omitempty"`
+	// OwnCtx: indices of calls that carry their own context (not the batch's); it is
+	// cancelled at CancelOwnAtMS. ReleaseAtMS > 0 releases every "hold" outcome then.
+	OwnCtx        []int `json:"own_ctx,omitempty"`
+	CancelOwnAtMS int   `json:"cancel_own_at_ms,omitempty"`
+	ReleaseAtMS   int   `json:"release_at_ms,omitempty"`
+	// CellBlocks: the servers answer through cellblocks instead of protobuf cells
+	CellBlocks bool `json:"cellblocks,omitempty"`
 }
 
 type batchObs struct {
@@ -47,6 +54,7 @@ type batchObs struct {
 	dropped  bool
 	deadlock string
 	panicMsg string
+	bubble   bubbleResult
 	calls    []hrpc.Call
 }
 
@@ -66,6 +74,7 @@ func batchExec(c batchCase) batchObs {
 		cl := c.Layout.build()
 		cl.Tape = c.Tape
 		cl.PermuteMulti = true
+		cl.UseCellBlocks = c.CellBlocks
 		for mk, outs := range c.Scripts {
 			cl.Script[mk] = outs
 		}
@@ -86,6 +95,28 @@ func batchExec(c batchCase) batchObs {
 		client := newSimClient(cl, gohbase.RpcQueueSize(c.QueueSize), gohbase.FlushInterval(time.Duration(c.FlushMS)*time.Millisecond))
 		ctx, cancel := context.WithCancel(context.Background())
 		defer cancel()
+		own := map[int]bool{}
+		for _, i := range c.OwnCtx {
+			own[i] = true
+		}
+		ownCtx, ownCancel := context.WithCancel(context.Background())
+		defer ownCancel()
+		if len(own) > 0 {
+			tm := time.AfterFunc(time.Duration(c.CancelOwnAtMS)*time.Millisecond, ownCancel)
+			defer tm.Stop()
+		}
+		if c.ReleaseAtMS > 0 {
+			tm := time.AfterFunc(time.Duration(c.ReleaseAtMS)*time.Millisecond, func() {
+				for mk, outs := range c.Scripts {
+					for _, o := range outs {
+						if o.Kind == "hold" {
+							cl.Release(mk)
+						}
+					}
+				}
+			})
+			defer tm.Stop()
+		}
 		var calls []hrpc.Call
 		for i, op := range c.Batch {
 			table := c.Layout.Table
@@ -96,7 +127,11 @@ func batchExec(c batchCase) batchObs {
 			if c.Invalid == "nonbatchable" && i == c.InvalidAt {
 				opts = append(opts, hrpc.SkipBatch())
 			}
-			call, err := buildCall(ctx, table, op, opts...)
+			cctx := ctx
+			if own[i] {
+				cctx = ownCtx
+			}
+			call, err := buildCall(cctx, table, op, opts...)
 			if err != nil {
 				panic(err)
 			}
@@ -146,7 +181,7 @@ func batchExec(c batchCase) batchObs {
 			<-done
 		}
 	})
-	obs.deadlock, obs.panicMsg = res.Deadlock, res.Panic
+	obs.deadlock, obs.panicMsg, obs.bubble = res.Deadlock, res.Panic, res
 	if res.Deadlock != "" {
 		obs.deadlock += "\n" + bubbleStacks(res.Stack)
 	}
@@ -181,6 +216,9 @@ func finalOutcome(outs []sim.Outcome) (final string, retryables int, connLevel b
 
 func c07Run(c batchCase) (out Outcome) {
 	obs := batchExec(c)
+	if o, stuck := stuckVerdict(obs.bubble); stuck {
+		return o
+	}
 	if obs.panicMsg != "" {
 		return viol("panic@"+topFrame(obs.panicMsg), "%s", obs.panicMsg)
 	}
@@ -202,6 +240,7 @@ func c07Run(c batchCase) (out Outcome) {
 		return viol("batch-result-count", "batch of %d calls returned %d results", len(c.Batch), len(obs.results))
 	}
 	executed := map[string]bool{}
+	executedAt := map[string]time.Duration{}
 	lastResult := map[string]string{}
 	for _, e := range obs.execs {
 		if e.Marker == "" {
@@ -209,6 +248,7 @@ func c07Run(c batchCase) (out Outcome) {
 		}
 		if e.Executed {
 			executed[e.Marker] = true
+			executedAt[e.Marker] = e.T
 		}
 		lastResult[e.Marker] = e.Result
 	}
@@ -252,6 +292,11 @@ func c07Run(c batchCase) (out Outcome) {
 		// "Delivered" is knowable when the batch was not cancelled and re-location did not fail.
 		if executed[op.Marker] && c.CancelAtMS < 0 {
 			return viol("result-success-lost", "call %s (index %d) was executed successfully and answered, but its result is the error %v", op.Marker, i, r.Error)
+		}
+		// ... also when the context is cancelled later: the answer (sent at once by the
+		// server) had reached the client strictly before the cancellation
+		if at, ok := executedAt[op.Marker]; ok && c.CancelAtMS >= 0 && at < time.Duration(c.CancelAtMS)*time.Millisecond {
+			return viol("result-success-lost", "call %s (index %d) was executed and answered at %v, the batch context was cancelled at %dms, yet its result is the error %v", op.Marker, i, at, c.CancelAtMS, r.Error)
 		}
 		switch {
 		case final == "fatal" && c.CancelAtMS < 0 && !obs.dropped:
@@ -330,6 +375,7 @@ func c07Gen(t *rapid.T) batchCase {
 	c.QueueSize = rapid.SampledFrom([]int{1, 2, 5, 100}).Draw(t, "queue")
 	c.FlushMS = rapid.SampledFrom([]int{0, 1, 20}).Draw(t, "flush")
 	c.Tape = rapid.SliceOfN(rapid.Byte(), 0, 8).Draw(t, "tape")
+	c.CellBlocks = rapid.Bool().Draw(t, "cellblocks")
 	n := 0
 	nb := rapid.IntRange(1, 12).Draw(t, "nbatch")
 	for i := 0; i < nb; i++ {
@@ -367,6 +413,9 @@ func TestC07_BatchResults(t *testing.T) {
 
 func c12Run(c batchCase) (out Outcome) {
 	obs := batchExec(c)
+	if o, stuck := stuckVerdict(obs.bubble); stuck {
+		return o
+	}
 	if obs.panicMsg != "" {
 		return viol("panic@"+topFrame(obs.panicMsg), "%s", obs.panicMsg)
 	}
@@ -451,6 +500,10 @@ func c12Run(c batchCase) (out Outcome) {
 		if executions[op.Marker] > 1 {
 			return viol("executed-twice", "call %s (index %d) was executed %d times", op.Marker, i, executions[op.Marker])
 		}
+		if len(c.OwnCtx) > 0 {
+			// (a call whose own context ended may be reported failed although it was executed)
+			continue
+		}
 		if r.Error == nil && executions[op.Marker] != 1 {
 			return viol("success-without-execution", "call %s succeeded but was executed %d times", op.Marker, executions[op.Marker])
 		}
@@ -514,6 +567,7 @@ func c12Gen(t *rapid.T) batchCase {
 	c.QueueSize = rapid.SampledFrom([]int{1, 2, 5, 100}).Draw(t, "queue")
 	c.FlushMS = rapid.SampledFrom([]int{0, 1, 20}).Draw(t, "flush")
 	c.Tape = rapid.SliceOfN(rapid.Byte(), 0, 8).Draw(t, "tape")
+	c.CellBlocks = rapid.Bool().Draw(t, "cellblocks")
 	c.CancelAtMS = -1
 	n := 0
 	nb := rapid.IntRange(1, 16).Draw(t, "nbatch")
@@ -534,6 +588,18 @@ func c12Gen(t *rapid.T) batchCase {
 		c.Scripts = genScripts(t, c.Batch, false)
 	case 3:
 		c.Scripts = genScripts(t, c.Batch, true)
+	case 4:
+		// a call with its own context is cancelled while the multi-request that carries it
+		// is in flight (its response is held at the server and released afterwards)
+		c.Scripts = map[string][]sim.Outcome{}
+		h := rapid.IntRange(0, len(c.Batch)-1).Draw(t, "held")
+		c.Scripts[c.Batch[h].Marker] = []sim.Outcome{{Kind: "hold"}}
+		na := rapid.IntRange(1, 2).Draw(t, "nown")
+		for k := 0; k < na; k++ {
+			c.OwnCtx = append(c.OwnCtx, rapid.IntRange(0, len(c.Batch)-1).Draw(t, "own"))
+		}
+		c.CancelOwnAtMS = rapid.SampledFrom([]int{25, 30, 60}).Draw(t, "cancelown")
+		c.ReleaseAtMS = c.CancelOwnAtMS + rapid.SampledFrom([]int{1, 10, 100}).Draw(t, "releaseafter")
 	}
 	if rapid.IntRange(0, 3).Draw(t, "other") == 0 {
 		no := rapid.IntRange(1, 6).Draw(t, "nother")
